@@ -29,9 +29,13 @@ class ConclusionSelector(LogicalBinaryOperator, ABC):
     they are not duplicated across truth branches.
     """
 
-    concluded_before: Dict[bool, SeenSet] = field(
-        default_factory=lambda: {True: SeenSet(), False: SeenSet()}, init=False
-    )
+    concluded_before: Dict[
+        typing.Tuple[bool, typing.FrozenSet[Conclusion]], SeenSet
+    ] = field(default_factory=dict, init=False)
+    """
+    The values of the conclusions' variables for which the outermost selector already produced a set of conclusions,
+     per truth branch and set of conclusions.
+    """
 
     def update_conclusion(
         self, output: OperationResult, conclusions: typing.Set[Conclusion]
@@ -39,9 +43,16 @@ class ConclusionSelector(LogicalBinaryOperator, ABC):
         """
         Update conclusions if this combination hasn't been seen before.
 
-        Uses canonical tuple keys for stable deduplication.
+        Only the outermost selector can tell a repetition: what the conclusions selected by an inner selector finally
+        produce is decided by the selectors above it (a refinement may override them for one binding and not for
+        another, a next rule adds to them), so an inner selector always hands its selection on. The outermost one
+        skips a set of conclusions it already produced for the same values of the variables they mention; another
+        set of conclusions for the same values is not a repetition.
         """
         if not conclusions:
+            return
+        if isinstance(self._parent_, ConclusionSelector):
+            self._conclusion_.update(conclusions)
             return
         required_vars = HashedIterable()
         for conclusion in conclusions:
@@ -53,9 +64,12 @@ class ConclusionSelector(LogicalBinaryOperator, ABC):
             k: v for k, v in output.bindings.items() if k in required_vars
         }
 
-        if not self.concluded_before[not self._is_false_].check(required_output):
+        concluded_before = self.concluded_before.setdefault(
+            (not self._is_false_, frozenset(conclusions)), SeenSet()
+        )
+        if not concluded_before.check(required_output):
             self._conclusion_.update(conclusions)
-            self.concluded_before[not self._is_false_].add(required_output)
+            concluded_before.add(required_output)
 
     @property
     def _plot_color_(self) -> ColorLegend:
